@@ -201,7 +201,22 @@ class Rec:
         return [(e["r"], e["c"]) for e in self.ev if e["e"] == "ReadEnd"]
 
 
-async def client_reader(tr: Any, rec: Rec, policy: list[int], max_reads: int, scale: float = 1.0) -> None:
+async def _one_read(tr: Any, to_s: float | None, via: str) -> bytes:
+    """via = "read": transport.read(timeout).  "outer-read" / "outer-request": the time limit is the CALLER's
+    (asyncio.wait_for around read() / request(), the way wait_for_ecu() and the scanners bound their calls), so
+    the read ends by cancellation; the statement's "a read that times out consumes nothing" does not depend on
+    who owns the timer."""
+    if via == "read":
+        return await tr.read(timeout=to_s)
+    inner = 3000.0 if to_s else None
+    coro = tr.read(timeout=inner) if via == "outer-read" else tr.request(b"\x3e\x00", timeout=inner)
+    if to_s:
+        return await asyncio.wait_for(coro, to_s)
+    return await coro
+
+
+async def client_reader(tr: Any, rec: Rec, policy: list[int], max_reads: int, scale: float = 1.0,
+                        via: str = "read") -> None:
     """Read until end-of-stream is reported (or nothing more can come).
     policy: timeouts in ms, cycled; 0 = no timeout."""
     errors = 0
@@ -209,7 +224,7 @@ async def client_reader(tr: Any, rec: Rec, policy: list[int], max_reads: int, sc
         to = policy[i % len(policy)]
         rec.begin(to)
         try:
-            data = await tr.read(timeout=(to / 1000.0 * scale) if to else None)
+            data = await _one_read(tr, (to / 1000.0 * scale) if to else None, via)
         except asyncio.TimeoutError:
             rec.end("Timeout")
             if rec.feeder_done and not rec.closed:
@@ -284,7 +299,7 @@ def n_waits(plan: list[tuple[Any, ...]]) -> int:
 
 
 def run_reader(kind: str, contents: list[bytes], chunks: list[bytes], plan: list[tuple[Any, ...]],
-               policy: list[int], lead: str = "feeder") -> dict[str, Any]:
+               policy: list[int], lead: str = "feeder", via: str = "read") -> dict[str, Any]:
     """One execution of the real reader `kind` (tcp | unix: LinesTransportMixin.read
     via the real connect(); server: the real handle_client) on a hand-fed stream
     under virtual time.  contents[i] is the message whose wire bytes are chunks[i]."""
@@ -305,13 +320,13 @@ def run_reader(kind: str, contents: list[bytes], chunks: list[bytes], plan: list
         wire = lis.wires[0]
         port = FakePort(wire, rec)
         if lead == "reader":
-            rt = asyncio.ensure_future(client_reader(tr, rec, policy, max_reads))
+            rt = asyncio.ensure_future(client_reader(tr, rec, policy, max_reads, via=via))
             await streams.settle(2)
             ft = asyncio.ensure_future(run_plan(port, rec, stream, plan, has_timeouts=True))
         else:
             ft = asyncio.ensure_future(run_plan(port, rec, stream, plan, has_timeouts=True))
             await streams.settle(1)
-            rt = asyncio.ensure_future(client_reader(tr, rec, policy, max_reads))
+            rt = asyncio.ensure_future(client_reader(tr, rec, policy, max_reads, via=via))
         try:
             await rt
         finally:
